@@ -1268,7 +1268,7 @@ fn serialize(plan: &Plan, num_glyphs: u16) -> Vec<u8> {
 // ---------------------------------------------------------------------------------------------
 
 /// Number of hazard tables available.
-pub const HAZARD_COUNT: u32 = 4;
+pub const HAZARD_COUNT: u32 = 5;
 
 /// Short description of a hazard table.
 pub fn hazard_name(hazard: u32) -> &'static str {
@@ -1277,6 +1277,7 @@ pub fn hazard_name(hazard: u32) -> &'static str {
         1 => "ligature action list with two STORE actions -> stale end_pos: drain out of range / usize underflow panic",
         2 => "ligature subtable whose failure transition drops to state 0 without DONT_ADVANCE -> stale component stack swallows unrelated glyphs (wrong output, no error)",
         3 => "ligature subtable using DONT_ADVANCE between SET_COMPONENT and PERFORM_ACTION -> component stack wrongly cleared -> MissingValue error",
+        4 => "contextual subtable whose two DONT_ADVANCE entries substitute a -> b and b -> a: a state machine that never advances (implementations must bound it)",
         _ => "unknown",
     }
 }
@@ -1393,6 +1394,34 @@ pub fn build_morx_hazard(num_glyphs: u16, glyphs: &[u16], hazard: u32) -> Option
             let actions = act(&[off(b), off(a) | LIG_ACTION_LAST]);
             let body = assemble_stx(6, &class_bytes, &rows, &entries, &[actions, u16s(&[0]), u16s(&[lig])], &order);
             Some(wrap_single_subtable(2, body))
+        }
+        4 => {
+            // classes: a = 4, b = 5. Both start states: a -> entry 1, b -> entry 2.
+            // entry 1: substitute current glyph through table 0 (a -> b), don't advance, state 0
+            // entry 2: substitute current glyph through table 1 (b -> a), don't advance, state 0
+            let mut entries = Vec::new();
+            for e in [(0u16, 0u16, 0xFFFFu16, 0xFFFFu16), (0, CTX_DONT_ADVANCE, 0xFFFF, 0), (0, CTX_DONT_ADVANCE, 0xFFFF, 1)] {
+                be16(&mut entries, e.0);
+                be16(&mut entries, e.1);
+                be16(&mut entries, e.2);
+                be16(&mut entries, e.3);
+            }
+            let rows = vec![vec![0, 0, 0, 0, 1, 2], vec![0, 0, 0, 0, 1, 2]];
+            let mut t0 = emit_lookup(6, &[(a, b)], Fill::Identity, num_glyphs, LkOpts { term: 0, unit1: false }).0;
+            let mut t1 = emit_lookup(6, &[(b, a)], Fill::Identity, num_glyphs, LkOpts { term: 0, unit1: false }).0;
+            if t0.len() % 2 != 0 {
+                t0.push(0);
+            }
+            if t1.len() % 2 != 0 {
+                t1.push(0);
+            }
+            let mut subst = Vec::new();
+            be32(&mut subst, 8);
+            be32(&mut subst, 8 + t0.len() as u32);
+            subst.extend_from_slice(&t0);
+            subst.extend_from_slice(&t1);
+            let body = assemble_stx(6, &class_bytes, &rows, &entries, &[subst], &[0, 1, 2, 3]);
+            Some(wrap_single_subtable(1, body))
         }
         _ => None,
     }
